@@ -9,6 +9,7 @@ src: str.c, obj.c
 enforce: spif_str_prepend_char
 backend: sat,z3
 timeout: 200
+flags: --slice-formula
 */
 /*@unit
 name: str_prepend_char.nonempty
@@ -17,6 +18,7 @@ src: str.c, obj.c
 enforce: spif_str_prepend_char
 backend: sat,z3
 timeout: 200
+flags: --slice-formula
 */
 /*@unit
 name: str_prepend_from_ptr.empty
@@ -25,6 +27,7 @@ src: str.c, obj.c
 enforce: spif_str_prepend_from_ptr
 backend: sat,z3
 timeout: 200
+flags: --slice-formula
 */
 /*@unit
 name: str_prepend_from_ptr.nonempty
@@ -33,6 +36,7 @@ src: str.c, obj.c
 enforce: spif_str_prepend_from_ptr
 backend: sat,z3
 timeout: 200
+flags: --slice-formula
 */
 /*@unit
 name: str_prepend.empty
@@ -41,6 +45,7 @@ src: str.c, obj.c
 enforce: spif_str_prepend
 backend: sat,z3
 timeout: 200
+flags: --slice-formula
 */
 /*@unit
 name: str_prepend.nonempty
@@ -49,6 +54,7 @@ src: str.c, obj.c
 enforce: spif_str_prepend
 backend: sat,z3
 timeout: 200
+flags: --slice-formula
 */
 /*@unit
 name: ustr_prepend_char.empty
@@ -57,6 +63,7 @@ src: ustr.c, obj.c
 enforce: spif_ustr_prepend_char
 backend: sat,z3
 timeout: 200
+flags: --slice-formula
 */
 /*@unit
 name: ustr_prepend_char.nonempty
@@ -65,6 +72,7 @@ src: ustr.c, obj.c
 enforce: spif_ustr_prepend_char
 backend: sat,z3
 timeout: 200
+flags: --slice-formula
 */
 /*@unit
 name: ustr_prepend_from_ptr.empty
@@ -73,6 +81,7 @@ src: ustr.c, obj.c
 enforce: spif_ustr_prepend_from_ptr
 backend: sat,z3
 timeout: 200
+flags: --slice-formula
 */
 /*@unit
 name: ustr_prepend_from_ptr.nonempty
@@ -81,6 +90,7 @@ src: ustr.c, obj.c
 enforce: spif_ustr_prepend_from_ptr
 backend: sat,z3
 timeout: 200
+flags: --slice-formula
 */
 /*@unit
 name: ustr_prepend.empty
@@ -89,6 +99,7 @@ src: ustr.c, obj.c
 enforce: spif_ustr_prepend
 backend: sat,z3
 timeout: 200
+flags: --slice-formula
 */
 /*@unit
 name: ustr_prepend.nonempty
@@ -97,6 +108,7 @@ src: ustr.c, obj.c
 enforce: spif_ustr_prepend
 backend: sat,z3
 timeout: 200
+flags: --slice-formula
 */
 #include "str.h"
 
